@@ -102,7 +102,46 @@ func (c11) Plan(tier string, seed int64) []mon.Workload {
 	return []mon.Workload{{Name: "table", N: n, Exhaustive: true}, {Name: "random", N: rnd}, {Name: "sequences", N: rnd / 2},
 		{Name: "after-error", N: rnd / 4},
 		{Name: "alias-pairs", N: int64(len(c11AliasOps) * len(c11AliasKeys) * len(c11AliasKeys) * 3), Exhaustive: true},
-		{Name: "shared-parts", N: int64(len(c11SharedBuilds) * len(c11SharedUses)), Exhaustive: true}}
+		{Name: "shared-parts", N: int64(len(c11SharedBuilds) * len(c11SharedUses)), Exhaustive: true},
+		{Name: "string-edges", N: int64(len(c11EdgeOps) * len(c11EdgeVals) * 3), Exhaustive: true}}
+}
+
+// string-edges (exhaustive): the string builtins on subjects whose ENDS are
+// unusual - every Unicode white-space character, zero-width characters,
+// letters with multi-byte case mappings, percent escapes of multi-byte runes -
+// as a field, a tag and a variable.
+var c11EdgeVals = []string{"\u00a0pad\u00a0", "\u3000x\u2003", "\u0085y\u2028", " \t mix\u00a0 ", "\u200bzero\u200b", "\u1680\u205f", "\u2029p\u202f", "\u2000\u200a q \u2001",
+	"x", "", "  ", "àé ß ǆ i", "%E4%B8%96+x%20", "%zz", "a%", "\v\fz\r\n", "xxaxx", "\u00a0"}
+var c11EdgeOps = []string{"trim(k)", "trim(k, \"\")", "trim(k, \" \")", "trim(k, \"x\u00a0\")", "uppercase(k)", "url_decode(k)", "replace(k, \"^\\\\s+\", \"<\")", "cast(k, \"str\")",
+	"strfmt(out, \"%s|%q|%d\", k, k, len(k))", "trim(k)\ntrim(k, \"p\")\nuppercase(k)"}
+
+func c11EdgeCase(i int64) c11Case {
+	where := int(i % 3)
+	i /= 3
+	val := c11EdgeVals[int(i)%len(c11EdgeVals)]
+	op := c11EdgeOps[int(i)/len(c11EdgeVals)]
+	text := op + "\np(get_key(k), k, get_key(out), len(k))\n"
+	pt := ref.NewPoint("meas", map[string]string{"bt": "bystander"}, map[string]any{"b1": int64(41)}, time.Unix(1700000123, 0))
+	switch where {
+	case 0:
+		pt.Fields["k"] = val
+	case 1:
+		pt.Tags["k"] = val
+	case 2:
+		if strings.ContainsAny(val, "\n\r\"\\") {
+			return c11Case{Skip: true}
+		}
+		text = "k = \"" + val + "\"\n" + text
+	}
+	o := drive.Parse("string-edges", text)
+	if o.Err != nil {
+		return c11Case{Skip: true}
+	}
+	l, err := gt.FromStmts(o.Stmts)
+	if err != nil {
+		return c11Case{Skip: true}
+	}
+	return c11Case{Stmts: gt.CloneStmts(l), Point: pt, Cell: "edges"}
 }
 
 // alias-pairs (exhaustive): `_` stands for `message` in every spelling of a
@@ -374,6 +413,13 @@ func (k c11) Describe(c *mon.Ctx, workload string, i int64) any {
 		}
 		return map[string]any{"source": gt.Print(gt.ParenthesizeStmts(cs.Stmts), nil)}
 	}
+	if workload == "string-edges" {
+		cs := c11EdgeCase(i)
+		if cs.Skip {
+			return "skipped combination"
+		}
+		return map[string]any{"source": gt.Print(gt.ParenthesizeStmts(cs.Stmts), nil), "point": cs.Point.Show()}
+	}
 	if workload == "alias-pairs" {
 		cs := c11AliasCase(i)
 		if cs.Skip {
@@ -442,6 +488,15 @@ func (k c11) Run(c *mon.Ctx, workload string, i int64) {
 	if workload == "shared-parts" {
 		cs := c11SharedCase(i)
 		if cs.Skip {
+			return
+		}
+		runBuiltinCase(c, cs.Stmts, cs.Point, cs.Cell, ref.Merge(ref.ProbeFuncs(), ref.FieldFuncs()), "c11.p")
+		return
+	}
+	if workload == "string-edges" {
+		cs := c11EdgeCase(i)
+		if cs.Skip {
+			c.Count("string_edges_skipped", 1)
 			return
 		}
 		runBuiltinCase(c, cs.Stmts, cs.Point, cs.Cell, ref.Merge(ref.ProbeFuncs(), ref.FieldFuncs()), "c11.p")
